@@ -140,7 +140,7 @@ def check_roundtrip(gb, cfg, tname, proto, res, want_exact, restlen, check_size=
     if res.enc is None:
         return None, None
     if res.note:
-        return 'unchecked writer: ' + res.note, None
+        return 'writer flavours disagree: ' + res.note, None
     try:
         v2, n, notes = genref.decode(sch, ty, res.enc, ref_proto(proto))
     except (genref.RefError, Exception) as e:
